@@ -217,7 +217,22 @@ class Prov(object):
             if callee == "os.path.join" and e.args:
                 first = e.args[0]
                 if isinstance(first, ast.Starred):
-                    return None
+                    # path.join(*ROOT, rest...) where ROOT is a tuple (or a conditional between tuples) of components
+                    alts = self._tuple_alternatives(f, first.value)
+                    if not alts:
+                        return None
+                    res = INF
+                    for elts in alts:
+                        if not elts or isinstance(elts[0], ast.Starred):
+                            return None
+                        d0 = self.eval(f, elts[0], seen, facts)
+                        if d0 is None or isinstance(d0, Joiner):
+                            return None
+                        val = d0 + sum(self._min_len(f, a, seen, facts) for a in list(elts[1:]) + list(e.args[1:]))
+                        res = meet(res, val)
+                        if res is None:
+                            return None
+                    return res
                 d = self.eval(f, first, seen, facts)
                 if d is None or isinstance(d, Joiner):
                     return None
@@ -243,6 +258,28 @@ class Prov(object):
             return None
         if isinstance(e, ast.Subscript) or isinstance(e, ast.BinOp):
             return None
+        return None
+
+    def _tuple_alternatives(self, f, v, depth=0):
+        """the tuple displays a starred argument may denote: a literal, a conditional between literals, a local so defined"""
+        if depth > 3:
+            return None
+        if isinstance(v, (ast.Tuple, ast.List)):
+            return [list(v.elts)]
+        if isinstance(v, ast.IfExp):
+            a, b = self._tuple_alternatives(f, v.body, depth + 1), self._tuple_alternatives(f, v.orelse, depth + 1)
+            return None if a is None or b is None else a + b
+        if isinstance(v, ast.Name):
+            defs = self.local_defs(f, v.id, v)
+            out = []
+            for d, sel in defs:
+                if d is None or isinstance(d, str) or sel is not None:
+                    return None
+                alt = self._tuple_alternatives(f, d, depth + 1)
+                if alt is None:
+                    return None
+                out += alt
+            return out or None
         return None
 
     def eval_elem(self, f, v, i, seen, facts=None):
